@@ -34,7 +34,7 @@ CONSTANTS
   UsageOn,       \* usage database configured?
   Blur,          \* blur interval, 0 = none
   Welcome,       \* token describing the configured welcome notices
-  BadMoods       \* mood / phase / body / id values SQLite cannot bind (JSON arrays / objects): outside the input domain of the
+  BadMoods       \* mood / phase / body / id values SQLite cannot bind (JSON arrays / objects; as `client_version`: not a pair): outside the input domain of the
                  \* properties, but the harness sends them to provoke a failure in the middle of a close
 
 ABSENT == "~"      \* a missing message field / SQL NULL string / Python None
@@ -390,6 +390,9 @@ Handle(S, c, m, gid, pick) ==
   ELSE CASE m.type = "ping" ->
     Fin(cn, d, u, <<[Frame0 EXCEPT !.to = c, !.type = "pong", !.pong = m.ping]>>, <<>>)
   [] m.type = "bind" ->
+    \* log_client_version indexes client_version[0], [1] whatever the configuration: a value that is
+    \* not a pair (here: the BadMoods tokens, a one-element list / an empty object) fails internally
+    IF m.cv \in BadMoods THEN Boom(d, u, <<>>, IF m.cv = "#{}" THEN "KeyError" ELSE "IndexError") ELSE
     LET u2 == IF UsageOn
               THEN [u EXCEPT !.ucv = Append(@, [app |-> m.appid, side |-> m.side,
                                                t |-> Blurred(t), cv |-> m.cv])]
